@@ -1,6 +1,7 @@
 """Choice-level harness (C03, C10, C16): drive `binning.deterministic_choice` with the hash
 position substituted, next to the Lean model's `choice` / `cum` / `ridx` operations and
 the exact-rational interval rule."""
+import json
 import copy
 import math
 import random as _random
@@ -106,3 +107,32 @@ def model_to_outcome(ans, population):
     if "e" in ans:
         return {"e": ans["e"]}
     return ans
+
+
+def run_half_step(ctx, n):
+    """REAL unit ids (nothing substituted) against boundaries half a grid step away from their own position:
+    unit with hash h, weights (2h+1, 2^33-2h-1) put the boundary at (h+1/2)/2^32 — the unit is in the first
+    group; weights (2h-1, 2^33-2h+1) put it at (h-1/2)/2^32 — second group.  All sums are exact in binary64,
+    so any position other than exactly h/2^32 (a different divisor, a float32 detour, a rounded hash) shows."""
+    from pyab_experiment.experiment_evaluator import ExperimentEvaluator
+    rng = ctx.rng
+    for k in range(n):
+        salt = rng.choice([None, "s1", "exp-%d" % rng.randrange(99)])
+        uid = rng.choice(["user-%d" % rng.randrange(10 ** 6), rng.randrange(10 ** 12), "u%d" % k])
+        env = {"uid": uid}
+        h = gen.published_position(salt, ["uid"], env)
+        for delta, want in ((1, 0), (-1, 1)):
+            a = 2 * h + delta
+            if a <= 0:
+                continue
+            ws_text = [str(a), str(2 ** 33 - a)]
+            exact, allowed = gen.spec_indices(ws_text, h)
+            assert exact == want, (h, ws_text, exact)
+            text = 'def e { %ssplitters: uid return "g0" weighted %s, "g1" weighted %s }' % ('salt: "%s" ' % salt if salt is not None else "", *ws_text)
+            out = common.outcome_of(lambda: ExperimentEvaluator(text)(**env))
+            ctx.case(("half-step", salt, uid, delta), True)
+            ctx.count("half-step")
+            if out != {"g": {"s": "g%d" % want}}:
+                ctx.violation(f"unit {uid!r} (salt {salt!r}) has position {h}/2^32; with weights {ws_text} the boundary is half a grid step "
+                              f"{'above' if delta > 0 else 'below'} it, so the interval rule selects g{want}: the evaluator returns {json.dumps(out)}",
+                              {"text": text, "env": common.enc_env(env), "h": h, "impl": out, "spec_exact": want})
